@@ -217,6 +217,25 @@ def _bind(chk, drv, dbdir, asis, filt, kf_dup, kf_stale, menu, qmenu, filters, g
                 multi[json.dumps(present, sort_keys=True)] = present
     chk.add(histories_from_graph=npaths)
 
+    # ---- 2b'. retention is history-dependent inside the store (its queue is not part of what queries show): covering
+    #          every EDGE of the state graph does not cover every HISTORY.  All sequences over the retention alphabet
+    #          (upsert / update_handler_status x two handlers x running|completed) up to the bound, on the capped
+    #          memory store; the model judges each one (observer + trace validation), it does not have to enumerate them
+    nseq = 0
+    alpha = [{"op": "upsert", "id": i, "wf": "wa", "st": st, "hr": "T", "idle": "F"} for i in ("h1", "h2") for st in ("running", "completed")] + \
+            [{"op": "update", "id": i, "st": st, "io": "keep"} for i in ("h1", "h2") for st in ("running", "completed")]
+    everything = dict(drv.NOFILTER, sts={"given": True, "vals": ALL4})
+    for (cap, length) in chk.pick([(2, 4), (1, 3)], [(2, 5), (1, 4), (0, 3)]):
+        for seq in itertools.product(alpha, repeat=length):
+            if sum(1 for o in seq if o["st"] == "completed") < 2 or not any(o["op"] == "update" for o in seq):
+                continue          # needs two completions and one status update to differ from what the graph paths cover
+            ops = []
+            for o in seq:
+                ops += [dict(o), {"op": "query", "f": everything}]
+            add_history("memory", cap, ops, "retention_sequences")
+            nseq += 1
+    chk.add(retention_sequences=nseq)
+
     # ---- 2c. contents x every filter combination: every single-handler contents enumerated by TLC, plus every
     #          multi-handler contents that occurs in the history graph; both stores
     ncont = 0
@@ -312,12 +331,14 @@ def _bind(chk, drv, dbdir, asis, filt, kf_dup, kf_stale, menu, qmenu, filters, g
                     key = "obs:%s:%s" % (fc, (cause or "retention:unexplained").split(":", 1)[1])
                 else:
                     key = "obs:%s:%s" % (fc, t["backend"])
+                n_ev = len(t["ev"])
+                fa = max(1, min(fl, n_ev))          # a clause may be reported for the position after the last event
                 ops = [{k: e[k] for k in ("op", "id", "wf", "st", "hr", "idle", "io", "f")} for e in t["ev"][:fl]]
                 chk.violation(key, "%s store (max_completed=%s): step %d of the history violates '%s'" % (
                     t["backend"], "None" if t["k"] < 0 else t["k"], fl, fc),
                     {"backend": t["backend"], "max_completed": t["k"], "history": ops,
-                     "rows_before": t["ev"][fl - 2]["rows"] if fl > 1 else [], "rows_after": t["ev"][fl - 1]["rows"],
-                     "returned": {"ids": t["ev"][fl - 1]["ret_ids"], "n": t["ev"][fl - 1]["ret_n"]}})
+                     "rows_before": t["ev"][fa - 2]["rows"] if fa > 1 else [], "rows_after": t["ev"][fa - 1]["rows"],
+                     "returned": {"ids": t["ev"][fa - 1]["ret_ids"], "n": t["ev"][fa - 1]["ret_n"]}})
         elif t["kind"] == "pair":
             if clause != "ok":
                 chk.violation("obs:backends_agree", "memory (no cap) and sqlite differ at step %s of the same history" % l,
